@@ -232,6 +232,38 @@ theorem cds_translation_own_table {β} (seq : Int → β) (compl : β → β) (c
   simp only [translate, List.length_map, codons_length]
   omega
 
+/-- FEATURES READ BACK (`Record.to_biopython` → `Record.from_biopython`, results reuse / GenBank re-read) on a record
+    that can be circular: the origin test the reader makes (`location_bridges_origin`, `allow_reversing=False`) answers
+    without touching the location (1); a gene, motif, domain or prepeptide section keeps its location exactly (2), so
+    every theorem above about `subLocation` / `prepeptideSections` / `prepeptideRebuild` holds verbatim for the re-read
+    feature; a misc_feature (TTA marker) keeps it when it does not bridge the origin (3) and when it is split in two over
+    the origin with neither piece inside the other (4) — `remove_redundant_exons` finds nothing redundant.
+    The seeded change (asking with `allow_reversing=True`) falsifies (1)/(2): see the witness below. -/
+theorem read_back_keeps_location (c : Bool) (l : Loc) :
+    bridgesOriginAR false l = (bridgesOrigin l, l) ∧
+    readLocation c false l = l ∧
+    (∀ m, bridgesOrigin l = false → readLocation c m l = l) ∧
+    (∀ p q, l = .compound [p, q] → partContains p q = false → partContains q p = false → readLocation c true l = l) := by
+  refine ⟨bridgesOriginAR_false l, readLocation_other c l, fun m h => readLocation_not_bridging c m l h, ?_⟩
+  intro p q hl h1 h2
+  subst hl
+  simp only [readLocation, bridgesOriginAR_false]
+  split <;> simp [removeRedundant_two p q h1 h2]
+
+/-- … hence a re-read annotation still covers the nucleotides that encode it: the sub-location for residues `[s,e)`
+    written out and read back (as CDS_motif / aSDomain / prepeptide section) lists `bases l [3s:3e]` and translates to
+    that stretch of the gene's translation; the re-read gene lists `bases l` -/
+theorem read_back_sub_feature {β γ} (seq : Int → β) (compl : β → β) (code : β × β × β → γ)
+    (c : Bool) (l : Loc) (hwf : geneWF l = true) (s e : Nat) (hse : s < e) (he : (e : Int) ≤ l.len / 3) :
+    bases (readLocation c false l) = bases l ∧
+    ∃ r, subLocation l s e = .ok r ∧
+      bases (readLocation c false r) = sliceL (bases l) (3 * s) (3 * e) ∧
+      translate code (extract seq compl (readLocation c false r)) = sliceL (translate code (extract seq compl l)) s e := by
+  obtain ⟨r, hr, hb, _⟩ := sub_is_slice l hwf s e hse he
+  obtain ⟨r', hr', _, ht⟩ := sub_extract_translate seq compl code l hwf s e hse he
+  rw [hr] at hr'; cases hr'
+  exact ⟨by rw [readLocation_other], r, hr, by rw [readLocation_other]; exact hb, by rw [readLocation_other]; exact ht⟩
+
 /-! ### non-vacuity and witnesses (all decided by the kernel on the model) -/
 
 /-- D8 witnesses, now repaired: the origin-spanning forward gene join{[90:102),[0:21)} and its reverse twin -/
@@ -317,5 +349,13 @@ example : cdsGeneratedTranslation (fun t => if t = 4 then "MKWPGFTCHL*".toList e
 /-- alternate start codon shown as M; a gene that is nothing but a stop comes back as X -/
 example : cdsGeneratedTranslation (fun _ => "LKW*".toList) 1 none = "MKW".toList
     ∧ aaTranslation "*".toList = "X".toList := by decide
+
+/-- the seeded change in the model: asked with `allow_reversing=True`, the helper leaves the exons of the reverse
+    origin-spanning gene (and of a TTA marker split over the origin) REVERSED — other bases order; asked without, nothing moves -/
+example : bridgesOriginAR true d8Rev = (false, .compound [⟨90, 102, .rev⟩, ⟨0, 21, .rev⟩])
+    ∧ bridgesOriginAR false d8Rev = (true, d8Rev) := by decide
+example : (bases (bridgesOriginAR true (.compound [⟨0, 1, .rev⟩, ⟨58, 60, .rev⟩])).2 = [59, 58, 0])
+    ∧ bases (.compound [⟨0, 1, .rev⟩, ⟨58, 60, .rev⟩]) = [0, 59, 58] := by decide
+example : readLocation true true (.compound [⟨0, 1, .rev⟩, ⟨58, 60, .rev⟩]) = .compound [⟨0, 1, .rev⟩, ⟨58, 60, .rev⟩] := by decide
 
 end ASV.C09
